@@ -126,6 +126,10 @@ def variant_flags(variant):
     if "serial" in variant:
         extra_defs += ["-DNO_THREAD_IMPL"]
         drop.add("lib/util/src/threadpool.c")
+    if os.environ.get("VERIF_COVERAGE"):
+        # gap analysis (tools/coverage.py): which lines of the tree do the checks execute at all
+        cflags = [f for f in cflags if f != "-O1"] + ["-O0", "--coverage"]
+        ld += ["--coverage"]
     return cc, cflags, ld, extra_defs, drop
 
 
@@ -141,6 +145,8 @@ uint32_t xxh32(const void *input, const size_t len)
 
 def build(variant="plain", quiet=True, extra_key=""):
     key = tree_hash()
+    if os.environ.get("VERIF_COVERAGE"):
+        extra_key += "-cov"
     out = os.path.join(CACHE, "build", "%s-%s%s" % (variant, key, extra_key))
     stamp = os.path.join(out, "OK")
     if os.path.exists(stamp):
